@@ -30,7 +30,7 @@ FORMS = ['aggregate-rows', 'aggregate-value', 'aggregate-values', 'aggregate-len
          'aggregate-multi-none', 'rowreduce', 'rowgroupmap', 'fold', 'groupselectfirst', 'groupselectlast', 'groupselectmin', 'groupselectmax',
          'mergeduplicates', 'merge', 'groupcountdistinctvalues', 'rowgroupby', 'rowgroupby-callable', 'valuecounts', 'valuecounter']
 REQUIRED = (['form:' + f for f in FORMS] + ['key-none-group', 'equal-but-different-type-keys-in-one-group', 'single-row-group-first', 'single-row-group-last',
-            'compound-key', 'chunked', 'presorted', 'header-only', 'rows-handed-to-recorders', 'min/max-tie', 'merge:header-only-table-not-last', 'mergeduplicates:non-default-missing', 'mergeduplicates:short-rows', 'key-by-index'])
+            'compound-key', 'chunked', 'presorted', 'header-only', 'rows-handed-to-recorders', 'min/max-tie', 'merge:header-only-table-not-last', 'mergeduplicates:non-default-missing', 'mergeduplicates:short-rows', 'key-by-index', 'merge:reverse', 'second-pass-compared'])
 KPOOL = [None, 1, 1.0, True, 2, 'a', 'b', b'a', (1, 2), gen.D(2020, 1, 1)]
 LISTKEY = [1, 2]      # a list-valued key cell is equivalent to the tuple (1, 2) under the ordering (C04): one group
 VPOOL = [0, 1, 2, 3, 5, -1, 2.5]
@@ -62,6 +62,8 @@ def cases(ctx):
         if f == 'groupcountdistinctvalues':
             key = 'k'        # documented for "the `key` field" only
         c = {'form': f, 'table': t, 'key': key, 'buffersize': rng.choice([None, None, 1, 2, 3]), 'presorted': rng.random() < 0.2}
+        if f == 'merge' and rng.random() < 0.3:
+            c['reverse'] = True
         if f in ('mergeduplicates', 'merge') and rng.random() < 0.5:
             c['missing'] = rng.choice(['NA', 0, 'x'])
             if f == 'mergeduplicates':
@@ -147,6 +149,18 @@ def judge(case, ctx):
             out.append({'kind': kind, 'expected-groups': want, 'groups-handed-to-the-aggregator': list(log)})
             return False
         return True
+
+    def two_passes(build):
+        # the same view read twice: the second pass (served from the sort's memory or chunk-file cache) is the same table
+        v = util.attempt(build)
+        if isinstance(v, util.Raised):
+            return v
+        got = util.attempt_rows(lambda: v)
+        again = util.attempt_rows(lambda: v)
+        ctx.seen('second-pass-compared')
+        if not isinstance(got, util.Raised) and (isinstance(again, util.Raised) or util.crows(again) != util.crows(got)):
+            out.append({'kind': 'second-pass-differs', 'op': form, 'first': got, 'second': again if not isinstance(again, util.Raised) else again.text})
+        return got
 
     def compare(got, exp, what='output-differs'):
         if isinstance(got, util.Raised):
@@ -294,7 +308,7 @@ def judge(case, ctx):
             ctx.seen('mergeduplicates:non-default-missing')
         if any(len(r) < len(hdr) for r in rows):
             ctx.seen('mergeduplicates:short-rows')
-        got = util.attempt_rows(lambda: petl.mergeduplicates(src, keyarg if not isinstance(keyarg, int) else 'k', **mkw))
+        got = two_passes(lambda: petl.mergeduplicates(src, keyarg if not isinstance(keyarg, int) else 'k', **mkw))
         others = [i for i in range(len(hdr)) if i not in kidx]
         exp = [khdr + tuple(hdr[i] for i in others)]
         for g in groups:
@@ -325,10 +339,14 @@ def judge(case, ctx):
             ctx.seen('merge:header-only-table-not-last')
         mk = keyarg if not isinstance(keyarg, int) else 'k'
         kw2 = {k: v for k, v in kw.items() if k != 'presorted'}
-        got = util.attempt_rows(lambda: petl.merge(*parts, key=mk, **kw2))
+        rev = bool(case.get('reverse'))
+        if rev:
+            kw2['reverse'] = True          # merge forwards it to mergesort: the groups then come in descending key order
+            ctx.seen('merge:reverse')
+        got = two_passes(lambda: petl.merge(*parts, key=mk, **kw2))
         others = [i for i in range(len(hdr)) if i not in kidx]
         exp = [khdr + tuple(hdr[i] for i in others)]
-        for g in groups:
+        for g in (groups[::-1] if rev else groups):
             o = list(keycells(g))
             for i in others:
                 vals = []
